@@ -282,7 +282,13 @@ func c03Property(t *rapid.T) {
 	shapes := map[string]bool{}
 	nMsgs := rapid.IntRange(1, 40).Draw(t, "history")
 	for i := 0; i < nMsgs && s.r.V.IsLoggedOn(); i++ {
-		switch rapid.SampledFrom([]string{"app", "app", "app", "heartbeat", "testreq", "reject"}).Draw(t, "kind") {
+		switch rapid.SampledFrom([]string{"app", "app", "app", "heartbeat", "testreq", "reject", "refresh"}).Draw(t, "kind") {
+		case "refresh":
+			// what RefreshOnLogon / a restart does to a persistent store: re-read it from its backing files
+			if err := s.r.Store().Refresh(); err != nil {
+				t.Fatalf("harness: store refresh failed: %v", err)
+			}
+			shapes["store-refreshed-mid-history"] = true
 		case "app":
 			m, shape := genAppMessage(t, s, useDict, "C"+strconv.Itoa(i))
 			st, err := s.r.Send(m)
